@@ -283,6 +283,25 @@ def seekFailOutcomes (bs : Bytes) : Nat → Nat → List String
       let o := if w.headD 0 != 0x47 then "other" else if (w.drop 188).contains 0x47 then "io" else "other"
       o :: seekFailOutcomes bs n (pos + w.length)
 
+/-- one reader-fault case: the fault-free run's results up to the call that hits the fault, then an error wrapping the cause -/
+def readerFaultCase (bs : Bytes) (off : Nat) (kind : ReaderKind) (auto once api : Bool) (chunk : List Nat) (tag : String) : Case :=
+  let cfg : DemuxCfg := { size := if auto then 0 else 188, kind := kind, fault := some (off, once), packetAPI := api, chunks := chunk }
+  -- calls: until the model reports the first error
+  let d0 := mkDemux bs cfg
+  let rec firstErr (d : Demux) (fuel n : Nat) : Nat :=
+    match fuel with
+    | 0 => n
+    | fuel + 1 =>
+      if api then (match d.nextPacket with | (.ok _, d') => firstErr d' fuel (n + 1) | _ => n + 1)
+      else (match d.nextData with | (.ok _, d') => firstErr d' fuel (n + 1) | _ => n + 1)
+  let k := firstErr d0 (bs.length / 188 + 8) 0
+  -- spec: the fault-free run's first k-1 results, then an error wrapping the cause at the fault offset
+  let clean := mkDemux bs { cfg with fault := none }
+  let (rs, _) := runCalls clean api (List.replicate (k - 1) Call.next)
+  let prefixOK := rs.all fun r => match r with | .data (.ok _) _ => true | .packet (.ok _) _ => true | _ => false
+  let posS := if kind == .bufio then "-" else toString off
+  let spec := if prefixOK then some ("|".intercalate ((rs.map (·.show kind)) ++ [s!"err:io@{posS}"]) ++ ";skip=[];parser=[];stable=true") else none
+  demuxCase bs { cfg with view := .seq } (some (List.replicate k Call.next)) spec tag
 /-! ### C18 (reader side) -/
 def runC18r (t : Tier) : Emit Unit := do
   -- the reader's Seek fails (returning -1 or 0 with the error) when auto-detection wants to go back to the start: the
@@ -309,23 +328,14 @@ def runC18r (t : Tier) : Emit Unit := do
       let once ← liftGen randBool
       let api ← liftGen (chance 1 3)
       let chunk ← liftGen (pick [[], [50], [1], [300]])
-      let cfg : DemuxCfg := { size := if auto then 0 else 188, kind := kind, fault := some (off, once), packetAPI := api, chunks := chunk }
-      -- calls: until the model reports the first error
-      let d0 := mkDemux bs cfg
-      let rec firstErr (d : Demux) (fuel n : Nat) : Nat :=
-        match fuel with
-        | 0 => n
-        | fuel + 1 =>
-          if api then (match d.nextPacket with | (.ok _, d') => firstErr d' fuel (n + 1) | _ => n + 1)
-          else (match d.nextData with | (.ok _, d') => firstErr d' fuel (n + 1) | _ => n + 1)
-      let k := firstErr d0 (bs.length / 188 + 8) 0
-      -- spec: the fault-free run's first k-1 results, then an error wrapping the cause at the fault offset
-      let clean := mkDemux bs { cfg with fault := none }
-      let (rs, _) := runCalls clean api (List.replicate (k - 1) Call.next)
-      let prefixOK := rs.all fun r => match r with | .data (.ok _) _ => true | .packet (.ok _) _ => true | _ => false
-      let posS := if kind == .bufio then "-" else toString off
-      let spec := if prefixOK then some ("|".intercalate ((rs.map (·.show kind)) ++ [s!"err:io@{posS}"]) ++ ";skip=[];parser=[];stable=true") else none
-      emit "C18" (demuxCase bs { cfg with view := .seq } (some (List.replicate k Call.next)) spec "reader-fault")
+      emit "C18" (readerFaultCase bs off kind auto once api chunk "reader-fault")
+    -- the detection window of a peeked (bufio) reader, deterministically: a fault with some bytes already buffered must
+    -- not be taken for a short stream
+    for off in [1, 2, 50, 100, 187, 188, 189, 192] do
+      for once in [true, false] do
+        for api in [false, true] do
+          emit "C18" (readerFaultCase bs off .bufio true once api [] "reader-fault-in-peeked-detection-window")
+          emit "C18" (readerFaultCase bs off .bufio true once api [64] "reader-fault-in-peeked-detection-window")
     -- auto-detection on readers that can be neither rewound nor peeked: faults inside the detection window and inside the
     -- re-synchronisation read that follows it (offsets 0..380): the first call returns an error wrapping the cause
     for off in [0, 1, 100, 192, 193, 194, 250, 300, 375, 376, 380] do
